@@ -121,6 +121,8 @@ class History:
         if self.twin:
             for pid, role, res in (("A2", True, self.res[0]), ("B2", False, self.res[1])):
                 kw = sessions.party_kwargs(p, self.keys, role, supply[0 if role else 1])
+                # the twin gets its PSKs at the same moments (late, through set_psk) - it only lacks the failing calls
+                kw["psks"] = {n: v for n, v in kw["psks"].items() if n not in self.missing[pid[0]]}
                 self.c.party(pid, "i" if role else "r", p.name, res=res, rng=self._rng(pid), prologue=prologue, rec="r", **kw)
         la, lb = self.c.op("build", "A"), self.c.op("build", "B")
         if self.twin:
@@ -165,6 +167,8 @@ class History:
             if arg in self.missing[w]:
                 self._fault(c.op("hs_write", w, pay=self.pay(k), buf=BIG), w, "hs_write", "psk%d" % arg)
                 c.op("set_psk", w, loc=arg, key=self.keys.psks[arg])
+                if self.twin:
+                    c.op("set_psk", w + "2", loc=arg, key=self.keys.psks[arg])
                 self.missing[w].discard(arg)
 
     def _read_fault(self, k, w, r, kind, arg, total, paylen):
@@ -188,6 +192,8 @@ class History:
             if arg in self.missing[r]:
                 self._fault(c.op("hs_read", r, msg=reg, buf=BIG), r, "hs_read", "psk%d" % arg)
                 c.op("set_psk", r, loc=arg, key=self.keys.psks[arg])
+                if self.twin:
+                    c.op("set_psk", r + "2", loc=arg, key=self.keys.psks[arg])
                 self.missing[r].discard(arg)
 
     def finish_missing(self):
